@@ -106,6 +106,7 @@ func checkRules(ctx context.Context, workers int, isOffline bool, gen *config.Pr
 					} else {
 						offlineChecksCount.Add(1)
 					}
+					verifDispatch(entry, check)
 					jobs <- scanJob{entry: entry, allEntries: entries, check: check}
 				}
 			}
@@ -114,6 +115,7 @@ func checkRules(ctx context.Context, workers int, isOffline bool, gen *config.Pr
 	}()
 
 	for result := range results {
+		verifArrival(result)
 		summary.Report(result)
 	}
 	summary.Duration = time.Since(start)
@@ -167,6 +169,7 @@ func scanWorker(ctx context.Context, jobs <-chan scanJob, results chan<- reporte
 			start := time.Now()
 			problems := job.check.Check(ctx, job.entry, job.allEntries)
 			checkDuration.WithLabelValues(job.check.Reporter()).Observe(time.Since(start).Seconds())
+			verifJitter(job)
 			for _, problem := range problems {
 				results <- reporter.Report{
 					Path:          job.entry.Path,
